@@ -6,10 +6,12 @@ import (
 	"errors"
 	"fmt"
 	"os"
+	"reflect"
 	"runtime"
 	"strings"
 	"sync"
 	"sync/atomic"
+	"unsafe"
 
 	"github.com/openziti/storage/boltz"
 	"go.etcd.io/bbolt"
@@ -93,6 +95,23 @@ func c17Sequential(rep *report.Report, thorough bool) {
 	wg.Wait()
 }
 
+var lockStateOnce sync.Once
+
+// reloadLockState reads DbImpl.reloadLock (a vsync.RWMutex in the instrumented build).
+func reloadLockState(db boltz.Db) (readers int, writer bool, ok bool) {
+	v := reflect.ValueOf(db)
+	if v.Kind() != reflect.Ptr || v.Elem().Kind() != reflect.Struct {
+		return 0, false, false
+	}
+	f := v.Elem().FieldByName("reloadLock")
+	if !f.IsValid() || f.Type() != reflect.TypeOf(vsync.RWMutex{}) || !f.CanAddr() {
+		return 0, false, false
+	}
+	m := (*vsync.RWMutex)(unsafe.Pointer(f.UnsafeAddr()))
+	readers, writer = m.Held()
+	return readers, writer, true
+}
+
 func c17Case(rep *report.Report, sc *idxScenario, ops []explore.Op, st *explore.State, cont []int, dir string, fullSuccessors bool) {
 	path := dir + "/work.db"
 	for _, f := range []string{path, path + ".previous"} {
@@ -139,9 +158,27 @@ func c17Case(rep *report.Report, sc *idxScenario, ops []explore.Op, st *explore.
 			_ = sdb.Close()
 		}
 	}
+	// sequential use: once a top-level call has returned (and its spawned goroutines are done) the
+	// reload lock must be free again - otherwise the restore below would wait forever
+	lockFree := func(after string) bool {
+		vsync.WaitIdle()
+		r, w, ok := reloadLockState(db)
+		if !ok {
+			lockStateOnce.Do(func() { rep.Capped("reload-lock state not observable (not the instrumented build)") })
+			return true
+		}
+		if r != 0 || w {
+			rep.Violation(sig("lock-leak"), label+fmt.Sprintf(": after %s returned the database's reload lock is still held (readers=%d writer=%v): the next restore would block forever", after, r, w), replay)
+			return false
+		}
+		return true
+	}
 	snapPath, snapId, err := db.Snapshot(dir + "/snap.db")
 	if err != nil {
 		rep.Violation(sig("snapshot-error"), label+": Snapshot failed: "+err.Error(), replay)
+		return
+	}
+	if !lockFree("View/StreamToWriter/Snapshot") {
 		return
 	}
 	if got := snap(); !got.Equal(imageA) {
@@ -149,6 +186,9 @@ func c17Case(rep *report.Report, sc *idxScenario, ops []explore.Op, st *explore.
 	}
 	// continuation (committed or rejected, whatever the operations decide)
 	_, _ = explore.RunProgram(db, explore.OrdinaryContext(), ops, cont, true, nil)
+	if !lockFree("the continuation transaction (Update)") {
+		return
+	}
 	data, err := os.ReadFile(snapPath)
 	if err != nil {
 		panic(err)
@@ -162,6 +202,9 @@ func c17Case(rep *report.Report, sc *idxScenario, ops []explore.Op, st *explore.
 	_ = os.Remove(snapPath)
 	if pan != nil {
 		rep.Violation(sig("restore-panic"), label+fmt.Sprintf(": RestoreSnapshot panicked: %v", pan), replay)
+		return
+	}
+	if !lockFree("RestoreSnapshot") {
 		return
 	}
 	restored := snap()
